@@ -807,6 +807,35 @@ func c08Client(c *eng.Ctx) {
 				}
 				continue
 			}
+			// the sentinel may be looked up in a constant table indexed by the
+			// status code (a package-level map that is only ever read): the
+			// pairs its initialiser put there
+			if ex, isEx := eng.Origin(last).(*ssa.Extract); isEx && ex.Index == 0 {
+				if lk, isLk := ex.Tuple.(*ssa.Lookup); isLk && lk.CommaOk && codeIs(lk.Index) {
+					if g := eng.GlobalOf(lk.X); g != nil && eng.FuncPkgOfGlobal(g) == p.TypesPkg(setecPkg) {
+						ro, why := eng.GlobalMapUnmodified(p, g)
+						if !ro {
+							c.Notes = append(c.Notes, "status table "+g.Name()+" is not read-only: "+why)
+						}
+						if ro {
+							present := false
+							for _, cond := range eng.FactsAt(r) {
+								if src, truth, isCO := cond.CommaOk(); isCO && truth && src == ssa.Value(lk) {
+									present = true
+								}
+							}
+							if present {
+								for k, v := range eng.GlobalMapPairs(p, g) {
+									if gl := eng.GlobalLoad(v); gl != nil && gl.Pkg != nil && strings.HasSuffix(gl.Pkg.Pkg.Path(), "types/api") {
+										got[k] = gl.Name()
+									}
+								}
+								continue
+							}
+						}
+					}
+				}
+			}
 			// the sentinel may be chosen by a helper applied to the status code
 			if call, _ := eng.TupleCall(last); call != nil && depth < 2 {
 				if cal := eng.Callee(&call.Call); cal != nil && cal.Blocks != nil && eng.FuncPkg(cal) == p.TypesPkg(setecPkg) && len(call.Call.Args) == 1 && len(cal.Params) == 1 && codeIs(call.Call.Args[0]) {
